@@ -41,7 +41,8 @@ class Check:
         """Builds the development and compiles props/<pid>.v; every Theorem there is one obligation.
         Returns the names of obligations that failed."""
         failed = []
-        all_ok, coq_log = C.build_coq(clean=self.thorough and os.environ.get("VERIF_NO_CLEAN") != "1")
+        all_ok, coq_log = C.build_coq(clean=self.thorough and os.environ.get("VERIF_NO_CLEAN") != "1",
+                                      targets=C.prop_targets(self.pid))
         if not all_ok:
             self.notes.append("some Coq file failed to build this run (fatal only if props/%s.v depends on it): %s"
                               % (self.pid, coq_log[-600:]))
@@ -57,6 +58,11 @@ class Check:
         self.trusted.append("Print Assumptions (props/%s.v): %d closed under the global context; library axioms used: %s"
                             % (self.pid, res["closed"], sorted(res["axioms"]) or "none"))
         self.refuted_or_partial = [t for t in res["theorems"] if t.endswith("_refuted") or t.endswith("_partial")]
+        if self.thorough and res["ok"] and os.environ.get("VERIF_NO_COQCHK") != "1":
+            ok, txt = C.coqchk(self.pid)
+            self.obligation("coqchk:props/%s" % self.pid, ok, txt[-1500:])
+            self.trusted.append("coqchk -silent -o (independent checker) on Burrow.props.%s and everything it depends on: %s"
+                                % (self.pid, "accepted; axioms reported: " + C.coqchk_axioms(txt) if ok else "FAILED"))
         for n, ok, d in self.obligations:
             if not ok:
                 failed.append((n, d))
